@@ -113,11 +113,22 @@ func ZZ_C18(shape int) {
 		if merr != nil {
 			panic(merr)
 		}
+		// the continueOnFailure parameter is absent or an arbitrary alphanumeric string; it
+		// asks for the flag exactly when it spells true (any letter case) or 1
 		q := ""
-		if cont {
-			q = []string{"continueOnFailure=true", "continueOnFailure=1", "x=1&continueOnFailure=TRUE"}[verifhook.Choose("contSpelling", 3)]
+		if fl := verifhook.Choose("contLen", 5); fl > 0 {
+			v := verifhook.String("contFlag", fl)
+			for i := 0; i < fl; i++ {
+				verifhook.Assume(verifhook.ByteClass(v[i], []string{"a-zA-Z0-9"}) == 0)
+			}
+			asks := verifhook.StrEq(v, "1")
+			for _, sp := range zzCaseVariants("true") {
+				asks = verifhook.Or(asks, verifhook.StrEq(v, sp))
+			}
+			verifhook.Assume(asks == cont)
+			q = []string{"continueOnFailure=" + v, "x=1&continueOnFailure=" + v}[verifhook.Choose("contPos", 2)]
 		} else {
-			q = []string{"", "continueOnFailure=false", "continueOnFailure=0"}[verifhook.Choose("contSpelling", 3)]
+			verifhook.Assume(!cont)
 		}
 		r := (&http.Request{Method: http.MethodPost, URL: &url.URL{Path: "/l1/_bulk", RawQuery: q}, Header: http.Header{}, Body: &zzBody{data: body}}).
 			WithContext(backend.ContextWithLedger(context.Background(), l))
